@@ -35,7 +35,7 @@ def build_all(b, with_san=True):
     return exes
 
 
-ALIGN_RE = re.compile(r"runtime error: (load of|store to) misaligned address \S+ for type '([^']+)'")
+ALIGN_RE = re.compile(r"runtime error: (load of|store to|assumption of \d+ byte alignment) (?:misaligned address \S+ for type|for pointer of type) '([^']+)'")
 
 
 def parse_align(err):
@@ -52,7 +52,7 @@ def parse_align(err):
             if mm:
                 fn = mm.group(1)
                 break
-        out.add((fn, m.group(2), 'load' if m.group(1).startswith('load') else 'store'))
+        out.add((fn, m.group(2), 'load' if m.group(1).startswith('load') else 'store' if m.group(1).startswith('store') else 'alignment-assumption'))
     return out
 
 
